@@ -1,8 +1,9 @@
 CONFIG = {
     "id": "C16",
-    "coq_targets": ["Props/C16.v", "Model/ShieldCheck.v"],
+    "coq_targets": ["Gen/FormulasShield.v", "Proofs/FormulasShieldProofs.v",
+                    "Props/C16.v", "Model/ShieldCheck.v"],
     "prop_files": ["Props/C16.v"],
-    "gen": [],
+    "gen": ["FormulasShield"],
     "components": [{
         "name": "shield", "modules": ["Model.Shield", "Model.ShieldCheck"],
         "check": "check_case", "monitor": "monitor_case", "model_out": "model_out",
@@ -17,7 +18,30 @@ CONFIG = {
             "{0,-0,negative,small,large,denormal}; stats/coefficients/bonuses from small pools incl. 0 and negative "
             "ones; after every call all events (all fields), the return value and IsShielded/MaxShield/HasShield of "
             "every unit and key are compared bit-exactly; a case is non-trivial when distinct as an input term",
-    "trusted": ["algebraic clauses (strength formula, 'what exceeds the strongest shield') are proved for the same "
+    "trusted": [
+        "TRANSLATED from the Go source on every run and proved equal to the model for every numeric instance and "
+        "every argument (Gen/FormulasShield.v; Proofs/FormulasShieldProofs.v; theorem "
+        "C16_model_formulas_are_the_source): shieldFormulaOrder, the strength formula of AddShield (per-key "
+        "switch, flat value, ShieldBoost of the source, ShieldTaken of the target; the loop is checked to have the "
+        "shape for k in order { v, ok := m[k]; if !ok {continue}; switch k {case K: acc += v * e} }), "
+        "AbsorbDamage's loop body (both math.Dim uses, lowest remainder, strongest remaining shield) and its "
+        "initial values; the fold of the generated body is proved to be what do_absorb computes",
+        "still HAND-WRITTEN (correspondence only): replace-or-append in AddShield, removal of exhausted shields "
+        "and the events, RemoveShield, the getters; the table model.ShieldFormula value -> constructor of "
+        "Shield.fkind is part of the translator (checked against the constants' current values); the shield "
+        "model's stats record carries ATK/DEF/HP base, ShieldBoost and ShieldTaken only (source.ATK() is statcalc "
+        "of the base value)",
+        "translator (harness/cmd/go2coq formulas.go, formulas_specs.go): trusted are the Go front end "
+        "(go/packages, go/types, go/constant), the fixed whitelist and accessor tables (which Go field / method is "
+        "which model accessor), the statement translation listed at the top of formulas.go, and that lit N n d "
+        "(the correctly rounded quotient of two integers below 2^53) is the binary64 the Go compiler stores for "
+        "the literal n/d; the translator fails closed (unknown construct, added or missing assignment, changed "
+        "signature: go2coq exits 1 and the check reports a broken translator obligation)",
+        "for functions that mix effects and arithmetic only the whitelisted statements are translated (the "
+        "statements of one block that assign the named variables, their number fixed; every other assignment to "
+        "those variables or to the inputs must be whitelisted verbatim): the ORDER of effects around the "
+        "arithmetic (event emissions, service calls, which unit receives the energy) stays hand-written and is "
+        "tied by correspondence only","algebraic clauses (strength formula, 'what exceeds the strongest shield') are proved for the same "
                 "definitions instantiated at the real numbers (NumOps section); the binary64 instance is what is "
                 "executed and corresponded; at binary64 the sign clauses are proved from FloatAxioms and the min/max "
                 "duality is checked on every implementation trace by the monitor (finite values)",
@@ -27,13 +51,16 @@ CONFIG = {
                     "strictly-positive survivors / non-negative strength need non-NaN inputs; a shield added with a "
                     "negative or NaN strength (negative coefficients or bonuses below -1) stays until the next absorb"],
     "manifest": {
-        "level_text": "Kernel-checked theorems over an executable Gallina model of the shield manager (all sequences of "
+        "level_text": "Translator tie (way 1): the strength formula of AddShield and the loop body of AbsorbDamage are regenerated from shield/add.go and shield/absorb.go on every run (go2coq FormulasShield) and proved EQUAL to the model's definitions for all inputs; "
+                      "Kernel-checked theorems over an executable Gallina model of the shield manager (all sequences of "
                       "add/remove/absorb, every numeric instance for the structural clauses, reals for the algebra, "
                       "binary64 for the signs), tied to the Go code by bit-exact correspondence on generated histories "
                       "and a trace monitor on the implementation.",
-        "level_note": "Coq kernel; hand-written model Model/Shield.v; correspondence harness; IEEE rounding gap between "
+        "level_note": "go2coq FormulasShield translator + kernel-checked equalities generated = model; "
+                      "Coq kernel; hand-written model Model/Shield.v; correspondence harness; IEEE rounding gap between "
                       "the binary64 and real instances for the strength formula and the min/max duality.",
-        "technique": "Coq proof (invariant over op lists, NumOps instances at float and R) + model/implementation "
+        "technique": "source-to-Coq translation of the formulas with equality proofs + "
+                     "Coq proof (invariant over op lists, NumOps instances at float and R) + model/implementation "
                      "correspondence + monitor",
         "design_ref": "DESIGN.md section 7, C16",
     },
